@@ -103,10 +103,23 @@ pub fn full_token(inp: &FInput, mask: &Option<Vec<bool>>) -> Result<String, Stri
 }
 
 fn case_masks(n: usize, rng: &mut StdRng) -> Vec<Option<Vec<bool>>> {
+    // the last one is SPARSE (fewer than one cell in sixteen selected, at least two): code paths that treat
+    // "few active cells" specially must keep the cells in index order whatever the schedule
+    let k = (n / 16).max(2).min(n);
+    let mut sparse = vec![false; n];
+    let mut placed = 0;
+    while placed < k && placed < n {
+        let i = rng.gen_range(0..n);
+        if !sparse[i] {
+            sparse[i] = true;
+            placed += 1;
+        }
+    }
     vec![
         None,
         Some((0..n).map(|_| rng.gen_bool(0.5)).collect()),
         Some((0..n).map(|i| i >= n / 2).collect()),
+        Some(sparse),
     ]
 }
 
@@ -148,8 +161,8 @@ pub fn main_sched(args: &[String]) -> i32 {
     for inp in inputs.iter() {
         let masks = case_masks(inp.gens.len(), &mut rng);
         for (mi, m) in masks.iter().enumerate() {
-            if inp.kind == "big" && mi > 0 {
-                continue;
+            if inp.kind == "big" && mi > 0 && mi < 3 {
+                continue; // the large input: full run and the sparse mask only
             }
             let key = format!("{}:{}", inp.id, mi);
             if mode == "seq" {
